@@ -366,6 +366,7 @@ class PixelAperture(Aperture):
         --------
         area
         """
+        data = np.asanyarray(data)  # array_like (e.g., nested list)
         apermasks = self.to_mask(method=method, subpixels=subpixels)
         if self.isscalar:
             apermasks = (apermasks,)
